@@ -321,6 +321,33 @@ def linkOK (ds : Array Nat) (depth : Nat) (labels : Array Int) : Bool :=
 def refineOK (shallow deep : Array Int) : Bool :=
   shallow.size == deep.size && (List.range deep.size).all fun i => deep[i]! / 10 == shallow[i]!
 
+/-- distance to the pit of every cell of a downstream-first order, recomputed along `seq` -/
+def seqRanks (ds : Array Nat) (seq : List Nat) : Array Nat :=
+  seq.foldl (fun r i => if ds[i]! = i then r.setIfInBounds i 0 else r.setIfInBounds i (r[ds[i]!]! + 1))
+    (Array.replicate ds.size 0)
+
+def adjSorted (r : Array Nat) : List Nat → Bool
+  | [] => true
+  | [_] => true
+  | a :: b :: rest => decide (r[a]! ≤ r[b]!) && adjSorted r (b :: rest)
+
+/-- hypothesis of theorem `area_size` supplied by the implementation, executable: the cell order is
+sorted by the distance to the pit (true for both `order_cells` methods: rank sort and breadth-first walk) -/
+def rankOrderOK (ds : Array Nat) (seq : List Nat) : Bool :=
+  let r := seqRanks ds seq
+  seq.all (fun i => ds[i]! == i || r[i]! == r[ds[i]!]! + 1) && adjSorted r seq
+
+/-- `Σ_{x ∈ l, p x} f x` (conditional sum over a list of cells) -/
+def C18.csum (p : Nat → Bool) (f : Nat → Int) : List Nat → Int
+  | [] => 0
+  | x :: l => (if p x = true then f x else 0) + C18.csum p f l
+
+/-- hypothesis of theorem `area_size`, executable: `uparea` has the size of the network and is, on the
+cells of `seq`, the accumulation of the non-negative cell areas `area` over the inflowing cells in `seq` -/
+def accumOK (ds : Array Nat) (seq : List Nat) (area uparea : Array Int) : Bool :=
+  uparea.size == ds.size && seq.all fun d => decide (0 ≤ area[d]!) &&
+    (uparea[d]! == area[d]! + C18.csum (fun c => decide (ds[c]! = d ∧ c ≠ d)) (fun c => uparea[c]!) seq)
+
 /-- hypothesis supplied by the implementation: `idxs_us_main[i]` is missing or a cell draining to `i` -/
 def usMainOK (ds usMain : Array Nat) : Bool :=
   usMain.size == ds.size && (List.range ds.size).all fun i =>
